@@ -72,15 +72,15 @@ def argminPrio {α : Type} : Cand α → List (Cand α) → Cand α
 `channelLock.maxDistance is None`. -/
 def lockSelect {α : Type} [Scalar α] (tol : α) (maxD : Option α) (cands : List (Cand α)) : LockOut :=
   -- possible = distances < maxDistance + tol  |  all ones
-  let possible := match maxD with
-    | some m => cands.filter fun c => lt c.d (add m tol)
+  let possible : List (Cand α) := match maxD with
+    | some m => cands.filter fun (c : Cand α) => lt c.d (add m tol)
     | none => cands
   match possible with
   | [] => .unchanged                       -- if not np.any(possible): return position
   | c0 :: cs =>
-    let minDist := minList c0.dw (cs.map (·.dw))
+    let minDist := minList c0.dw (cs.map Cand.dw)
     -- all_closest = where(distances_w < min_dist + tol)
-    match possible.filter fun c => lt c.dw (add minDist tol) with
+    match possible.filter fun (c : Cand α) => lt c.dw (add minDist tol) with
     | [] => .error
     | a :: as => .locked (argminPrio a as).idx
 
